@@ -133,7 +133,9 @@ class Gen:
             return N("lit", DOUBLE, v=(v, sp), const=True)
         if t == STR:
             s, pool = strings.pick_string(rng, self.hostile, False, False) if self.hostile else (rng.choice(
-                ("", "a", "b", "ab", "abc", "x", "Hello", "%1", "é", "z", "A", "0", " ", "\U0001F600", "\ufffd", "\U00010000", "a b")), "plain")
+                ("", "a", "b", "ab", "abc", "x", "Hello", "%1", "é", "z", "A", "0", " ", "\U0001F600", "\ufffd", "\U00010000", "a b",
+                 # escape followed by a character that could be absorbed into it by a C++ compiler
+                 "\x011", "\x0012", "\x1f7z", "\n0", "\t7", "\x7f1", "7", "12", "\x01", "\x00", "\x1bf", "\x0cA", "é9", "\u200bB")), "plain")
             return N("lit", STR, v=(s, strings.js_literal(rng, s)), const=True)
         if t == MODE:
             return N("enum", MODE, v=rng.choice(MODES), const=True)
@@ -469,6 +471,14 @@ class Gen:
 
     def p_tr(self, t, depth):
         s = self.lit(STR)
+        for _ in range(8):
+            # the source text of qsTr() travels as a NUL-terminated C string in Qt (and in the QML engine):
+            # text with an embedded U+0000 is outside what the API can carry and is not generated
+            if "\x00" not in s.v[0]:
+                break
+            s = self.lit(STR)
+        if "\x00" in s.v[0]:
+            s = N("lit", STR, v=("a", '"a"'), const=True)
         self.feat("qsTr")
         return N("tr", STR, (s,))
 
